@@ -182,6 +182,140 @@ def work_1d(item):
     return res
 
 
+def work_complex(item):
+    """complex data on a clamped space, data genuinely complex (pairs of symbolic reals); `history` says what was built on
+    the SAME basis object before: nothing, a real 1-D interpolator (used once), a 2-D interpolator containing the basis;
+    'real_after' checks a real interpolator built after the complex one.  dgbtrs discards imaginary parts (f2py cast),
+    zgbtrs keeps them: the contract stand-ins do the same."""
+    degree, family, ncells, path, history, canary = item
+    res = H.worker_result()
+    m = numenv.mods()
+    t0 = time.time()
+    if canary:
+        apply_canary(m, canary)
+    numenv.enable()
+    symx.set_bv(None)
+    breaks = breaks_family(family, ncells)
+    uf = (path == 'cu')
+    SI, SP = m['si'], m['spl']
+
+    def sequence(basis, other, real_data, cdata, SC):
+        """the same sequence of library calls for the symbolic run and the float replay"""
+        if history == 'after_real':
+            it0 = SI.SplineInterpolator1D(basis)
+            s0 = SP.Spline1D(basis)
+            it0.compute_interpolant(real_data, s0)
+        elif history == 'after_2d':
+            SI.SplineInterpolator2D(other, basis)
+        itc = SI.SplineInterpolator1D(basis, dtype=complex)
+        spc = SP.Spline1D(basis, dtype=complex)
+        itc.compute_interpolant(cdata, spc)
+        out = dict(c=spc)
+        if history == 'real_after':
+            it1 = SI.SplineInterpolator1D(basis)
+            s1 = SP.Spline1D(basis)
+            it1.compute_interpolant(real_data, s1)
+            out['r'] = s1
+        return out
+
+    def body(ctx):
+        knots, basis = build_space(m, degree, False, breaks, uf)
+        ob = breaks_family('uniform', 4)
+        _, other = build_space(m, 3, True, ob, uf)
+        n = basis.nbasis
+        re, im, rd = sym_data(n, 're'), sym_data(n, 'im'), sym_data(n, 'w')
+        cdata = np.empty(n, dtype=object)
+        for i in range(n):
+            cdata[i] = symx.SComplex(re[i], im[i])
+        out = sequence(basis, other, rd, cdata, symx.SComplex)
+        pts = list(basis.greville)
+        vals = [out['c'].eval(p) for p in pts]
+        rvals = [out['r'].eval(p) for p in pts] if 'r' in out else None
+        return dict(re=re, im=im, rd=rd, vals=vals, rvals=rvals, pts=pts)
+
+    def parts(v):
+        if isinstance(v, symx.SComplex):
+            return v.re, v.im
+        if isinstance(v, complex):
+            return v.real, v.imag
+        return v, 0
+
+    def replay(rev, imv, rdv):
+        numenv.disable()
+        try:
+            fb = float_space(m, degree, False, breaks, uf)
+            ofb = float_space(m, 3, True, breaks_family('uniform', 4), uf)
+            import warnings
+            with warnings.catch_warnings():
+                warnings.simplefilter('ignore')
+                out = sequence(fb, ofb, np.array([float(v) for v in rdv]), np.array([complex(float(a), float(b)) for a, b in zip(rev, imv)]), complex)
+            got = np.array([out['c'].eval(float(p)) for p in fb.greville])
+            exp = np.array([complex(float(a), float(b)) for a, b in zip(rev, imv)])
+            err = float(np.max(np.abs(got - exp)))
+            scale = max(1e-300, float(np.max(np.abs(exp))))
+            if 'r' in out:
+                gr = np.array([out['r'].eval(float(p)) for p in fb.greville])
+                err = max(err, float(np.max(np.abs(gr - np.array([float(v) for v in rdv])))))
+                scale = max(scale, max(abs(float(v)) for v in rdv))
+        except Exception as e:
+            return 'exception %s: %s' % (type(e).__name__, e)
+        finally:
+            numenv.enable()
+        if err > 1e-8 * scale:
+            return 'complex interpolant (history: %s) misses its data by %.3g' % (history, err)
+        return None
+
+    for ctx, (kind, val) in symx.explore(body, timeout_ms=30000, index_cap=64, maxpaths=200):
+        if kind == 'abort':
+            if val.inconclusive:
+                res['inconclusive'].append('abort %s %r' % (val.why, item[:5]))
+            continue
+        res['obligations'] += 1
+        n = ncells + degree
+        if kind == 'exc':
+            prob = replay([1.0 + 0.1 * i for i in range(n)], [0.5 - 0.2 * i for i in range(n)], [2.0 + i for i in range(n)])
+            rep = dict(kind='interp_complex', item=[str(v) for v in item[:5]], symbolic='%s: %s' % (type(val).__name__, val), concrete=prob)
+            if prob:
+                res['violations'].append(('interp1d:complex:exception', '%s %r: %s' % (type(val).__name__, item[:5], prob), rep))
+            else:
+                res['inconclusive'].append('exception on symbolic path only: %r %r' % (val, item[:5]))
+            continue
+        bad = []
+        for v, a, b in zip(val['vals'], val['re'], val['im']):
+            vr, vi = parts(v)
+            bad.append(toreal(zt(K(vr))) != toreal(zt(a)))
+            bad.append(toreal(zt(K(vi))) != toreal(zt(b)))
+        if val['rvals'] is not None:
+            for v, w in zip(val['rvals'], val['rd']):
+                vr, vi = parts(v)
+                bad.append(toreal(zt(K(vr))) != toreal(zt(w)))
+        r = ctx.check(z3.Or(bad))
+        if r == 'unsat':
+            res['discharged'] += 1
+            res['nontrivial'].append('interp_complex|%r' % (item[:5],))
+        elif r == 'sat':
+            mdl = ctx.model()
+            rev = [symx.model_value(mdl, x) for x in val['re']]
+            imv = [symx.model_value(mdl, x) for x in val['im']]
+            rdv = [symx.model_value(mdl, x) for x in val['rd']]
+            prob = replay(rev, imv, rdv)
+            rep = dict(kind='interp_complex', item=[str(v) for v in item[:5]], re=[str(v) for v in rev], im=[str(v) for v in imv], concrete=prob, canary=bool(canary))
+            if prob:
+                res['violations'].append(('interp1d:complex', '%r: %s' % (item[:5], prob), rep))
+            else:
+                res['inconclusive'].append('complex interpolation model does not reproduce in floats: %r' % (rep,))
+        else:
+            res['inconclusive'].append('unknown complex interpolation query %r' % (item[:5],))
+    numenv.disable()
+    if canary:
+        undo_canary(m)
+    res['stats'] = symx.GLOBAL.as_dict()
+    symx.GLOBAL.__init__()
+    res['wall'] = round(time.time() - t0, 2)
+    res['canary'] = canary[0] if canary else None
+    return res
+
+
 def work_2d(item):
     (d1, per1, fam1, n1), (d2, per2, fam2, n2), path, canary = item
     res = H.worker_result()
@@ -277,24 +411,27 @@ CANARIES = [
 ]
 
 
+CANARY_COMPLEX = ('complex interpolator solves with the real routine', 'si', [("                self._solveFunc = zgbtrs\n", "                self._solveFunc = dgbtrs\n")])
+
+
 def configs(tier):
     c1, c2 = [], []
     if tier == 'quick':
-        degs, fams, cells = [1, 2, 3, 4, 5], ['uniform', 'graded', 'irregular'], lambda d: [d + 1, d + 3]
+        degs, fams, cells = [1, 2, 3, 4, 5], ['uniform', 'graded', 'irregular'], lambda d: [d, d + 1, d + 3]
     else:
-        degs, fams, cells = [1, 2, 3, 4, 5, 6, 7], ['uniform', 'graded', 'alternating', 'geometric', 'irregular'], lambda d: [1, 2, d + 1, 8]
+        degs, fams, cells = [1, 2, 3, 4, 5, 6, 7], ['uniform', 'graded', 'alternating', 'geometric', 'irregular'], lambda d: [1, 2, d, d + 1, 8]
     for d in degs:
         for fam in fams:
             for n in sorted(set(cells(d))):
                 for per in (False, True):
-                    if per and n <= d:
+                    if per and n < d:            # make_knots admits periodic spaces with ncells >= degree
                         continue
                     c1.append((d, per, fam, n, 'nu', 'float', None))
     for d in ([3] if tier == 'quick' else [1, 3, 5]):
         c1.append((d, False, 'graded', d + 2, 'nu', 'complex', None))
-    for n in ([1, 4, 6] if tier == 'quick' else [1, 2, 3, 4, 6, 8]):
+    for n in ([1, 3, 4, 6] if tier == 'quick' else [1, 2, 3, 4, 6, 8]):
         for per in (False, True):
-            if per and n <= 3:
+            if per and n < 3:
                 continue
             c1.append((3, per, 'uniform', n, 'cu', 'float', None))
     c1.append((3, False, 'uniform', 5, 'cu', 'complex', None))
@@ -338,7 +475,22 @@ def main():
         run.merge(r)
     for r in H.pmap(work_2d, c2, run.args.jobs):
         run.merge(r)
-    for cn in CANARIES:
+    cc = []
+    for hist in ('fresh', 'after_real', 'after_2d', 'real_after'):
+        cc.append((3, 'graded', 3, 'nu', hist, None))
+        cc.append((3, 'uniform', 4, 'cu', hist, None))
+        if run.tier != 'quick':
+            for d in (1, 2, 4, 5):
+                cc.append((d, 'irregular', d + 1, 'nu', hist, None))
+    cc.append((2, 'graded', 3, 'nu', 'fresh', CANARY_COMPLEX))
+    for r in H.pmap(work_complex, cc, run.args.jobs):
+        if r.get('canary'):
+            run.add_stats(r.get('stats', {}))
+            caught[r['canary']] = bool(r['violations'])
+            continue
+        run.merge(r)
+    run.sections['complex_history_configs'] = len(cc) - 1
+    for cn in CANARIES + [CANARY_COMPLEX]:
         hit = caught.get(cn[0], False)
         run.canaries.append(dict(name=cn[0], detected=hit))
         if not hit:
@@ -351,7 +503,7 @@ def main():
     run.sections['configs'] = dict(one_d=len(c1), two_d=len(c2))
     run.bounds = dict(quick='degrees 1-5, 3 knot families, cells d+1/d+3, uniform-cubic 1/4/6 cells, three 2-D spaces', thorough='degrees 1-7, 5 families, cells {1,2,d+1,8}; 2-D 5x5 degrees', this_run=run.tier)
     run.outside = ['conditioning / rounding of the factorisation (badly scaled data only in the exact sense)', 'the LAPACK/SuperLU elimination itself (contract)',
-                   'complex data: the complex code path (zgbtrf/zgbtrs selection) is executed with real-valued proxies; linearity gives the complex case']
+                   'complex data: pairs of symbolic reals through the real code; dgbtrs (f2py cast to float64) discards imaginary parts, zgbtrs keeps them']
     run.assumptions = ['exact reals for doubles', 'LAPACK band layout as documented', 'np.around(.,15) identity']
     run.finish(
         explanation='Real SplineInterpolator1D/2D on symbolic data with solver contracts; z3 decides for all data that the interpolant '
